@@ -87,8 +87,8 @@ example : okCalls (load Cfg.asIs cyclicProject "main.gdn" 4) = some 3 := by deci
 /-! ## The visibility rule for functions -/
 
 /-- Run time (`eval_namespace_access`) and check time (`infer_namespace_access`) apply the same
-rule to `a::x` when `a` is bound to a loaded namespace: an error iff `x` is not a value of that
-namespace or is not in its `exported_syms`. -/
+rule to `a::x` when `a` is bound to a loaded namespace: an error iff `x` is not a value of
+that namespace or is not in its `exported_syms`. -/
 theorem qual_check_run_agree (st : St) (cur a x f : String)
     (ha : alookup (st.nsOf cur).values a = some (.ns f)) :
     ((∃ v, resolveQual st cur a x = .ok v) ↔ checkProbe st cur (.qual a x false) = none) ∧
@@ -202,8 +202,6 @@ theorem import_only_public_in_scope (cfg : Cfg) (proj : Project) (main : String)
     · cases hr
     · cases hr
 
-example : resolveBare libState "main.gdn" "pubf" = .ok (Val.fn "lib.gdn" 1001 true none) := by decide
-
 /-! ## Where the implementation does not follow the statement (model witnesses) -/
 
 def libProject : Project :=
@@ -222,6 +220,8 @@ example : runProbe libState "main.gdn" (.qual "m" "pubf" true) = .ok (some 1001)
     ∧ checkProbe libState "main.gdn" (.qual "m" "privf" true) = some .notExternal
     ∧ runProbe libState "main.gdn" (.bare "pubf" true) = .ok (some 1001)
     ∧ runProbe libState "main.gdn" (.bare "privf" true) = .err .unbound := by decide
+
+example : alookup (libState.nsOf "main.gdn").values "pubf" = some (Val.fn "lib.gdn" 1001 true none) := by decide
 
 /-- … but a PRIVATE struct of the imported file is usable by the importer (run and check). -/
 theorem private_type_visible_witness :
